@@ -85,9 +85,23 @@ def check(chk: Check) -> None:
         chk.bad(R1, 'comment rule', lexrel, 'no lexer rule drops its match: comments reach the parser')
     for n in silent:
         r = lm.rules[n]
-        chk.require(not r.newline, R1, 't_%s (comment)' % n, '%s:%d' % (lexrel, r.rule.line),
-                    'emits no token; cannot match across a line break' if not r.newline else
+        eats = r.newline and LM.last_char_can(r.parsed, '\n')
+        chk.require(not eats, R1, 't_%s (comment)' % n, '%s:%d' % (lexrel, r.rule.line),
+                    'emits no token; a match cannot end in a line break' if not eats else
                     'the comment regex can match a line break: it swallows the statement separator that follows')
+        # what the rule drops is not program text: cut into tokens by the other rules, no sample of the comment language is
+        # a run of tokens that can stand next to each other in a sentence (`--` is MINUS MINUS: `x--y` would lose its tail)
+        others = [o for o in lm.order if o != n]
+        hijacked = []
+        for w in sorted(r.texts or LM.samples(r.parsed, unroll=2, cap=200, alphabet='x-*') or (), key=lambda x: (len(x), x))[:80]:
+            toks = _tokenise_with(lm, others, w)
+            if not toks:
+                continue
+            if all(_adjacent(T, a, b) for a, b in zip(toks, toks[1:])) and any(tk in T.action[st] for st in range(len(T.action)) for tk in toks[:1]):
+                hijacked.append('%r is also %s' % (w, ' '.join(toks)))
+        chk.require(not hijacked, R1, 't_%s drops only text that is no program text' % n, '%s:%d' % (lexrel, r.rule.line),
+                    'no sample of the comment language can be cut into tokens that stand next to each other in a sentence' if not hijacked else
+                    'the rule is tried before the string rules and drops text that is program text today: %s' % '; '.join(hijacked[:3]))
     for n, r in lm.rules.items():
         if LM.first_chars_can(r.parsed, '#') and r.returns_token != 'never':
             chk.bad(R1, 't_%s at #' % n, lexrel, 'rule %s matches at the comment character and returns a token' % n)
@@ -513,6 +527,41 @@ def _token_gaps(chk: Check, R1: str, lm, lexrel: str) -> None:
                     'a blank between two tokens changes the token stream: %r lexes as %s but %r lexes as %s' % (
                         wit[0], ' '.join(x for x, _ in wit[2]) or '<nothing>', wit[1],
                         'an error' if wit[3] is None else (' '.join(x for x, _ in wit[3]) or '<nothing>')))
+
+
+def _tokenise_with(lm, order, text):
+    """Terminal names of `text` cut by the rules in `order` (PLY's scan); None when some position matches none of them."""
+    out = []
+    i = 0
+    while i < len(text):
+        if text[i] in lm.spec.ignore:
+            i += 1
+            continue
+        for name in order:
+            try:
+                e = LM.match_end(lm.rules[name].parsed, text, i)
+            except LM.RegexNotModelled:
+                return None
+            if e is not None:
+                if e == i:
+                    return None
+                if lm.rules[name].returns_token != 'never':
+                    out.append(lm.reserved.get(text[i:e], name) if lm.rules[name].type_expr is not None else name)
+                i = e
+                break
+        else:
+            return None
+    return out
+
+
+def _adjacent(T, a, b) -> bool:
+    """Can terminal b be the lookahead right after terminal a was shifted, in some state of the automaton?"""
+    for act in T.action:
+        v = act.get(a)
+        if v and v[0] == 's' and b in T.action[v[1]]:
+            return True
+    return False
+
 
 
 def trailing_comma_pairs(g, lm) -> List[Tuple[Any, Any]]:
